@@ -378,7 +378,7 @@ func c49run(c *Ctx) {
 		}
 		calls[h] = cl
 	}
-	arg := func(h string, i int) ssa.Value { return m1Strip(calls[h].Call.Args[i]) }
+	arg := func(h string, i int) ssa.Value { return m1Strip(BaselineArgs(&calls[h].Call)[i]) }
 	regA := arg("bpf.aluOpConstant", 1)
 	regX := arg("bpf.loadIndirect", 2)
 	scr := arg("bpf.loadScratch", 1)
